@@ -18,8 +18,8 @@ CHECKS = {
         "on the implementation's outputs, region histories and nested programs run on real DistributedConfiguration objects by "
         "every simulated rank, and an end-to-end rank-simulated run of the Redfield rate kernel.",
    note=TB + "All C20 theorems are closed under the global context. MPI transport is not modelled (a rank is a stub "
-        "DistributedConfiguration).",
-   design="7/C20", technique="Coq proof (lia/nia + induction over ranks) + _calculate_ranges regenerated from the source by a translator with a machine-checked equivalence lemma + exhaustive in-Coq correspondence"),
+        "DistributedConfiguration). Static tie: trusts harness/translate.py and translate_c20.py, treats the MPI calls of reduce/allreduce as text, and ties the callers only at the level of event order (c20_region_protocol_reduces_to_serial is about that shape, not about the loop bodies).",
+   design="7/C20", technique="Coq proof (lia/nia + induction over ranks) + static tie: _calculate_ranges regenerated from the source by a translator with a machine-checked equivalence lemma, and a second generated file (GenC20b.v) in which the list/array range functions, the three block_distributed_* helpers, the region bookkeeping of DistributedConfiguration, the public region wrappers and the guards of reduce/allreduce are translated statement by statement from parallel.py and proved equal to helper/api_block/list_block/array_block/reduce_mode/r_step by case analysis and linear arithmetic; the library's own distributed loops are reduced to their sequence of uses of the machinery and proved well formed + exhaustive in-Coq correspondence"),
  "C17": dict(
    text="Proved in Coq over every commutative ring and every matrix size: any history of set_rate calls (accepted or refused, "
         "negative/out-of-range/diagonal indices included) keeps all column sums and leaves in each off-diagonal element the "
@@ -76,8 +76,8 @@ CHECKS = {
         "'No library call changes the caller's units' is monitored on ~30 public calls (succeeding and raising) inside contexts - "
         "this clause quantifies over library code and is validated, not proved.",
    note=TB + "All C05 theorems closed under the global context. Tie: 9 accessors x 121 unit pairs compared in Coq with the model on the "
-        "implementation's own factors (1e-13); random context programs incl. real builds compared state by state in Coq.",
-   design="7/C05", technique="Coq proof (field arithmetic over Q; induction over context programs) + in-Coq differential correspondence"),
+        "implementation's own factors (1e-13); random context programs incl. real builds compared state by state in Coq. Static tie: trusts harness/translate_c05.py; scalars take the except branch and arrays the try branch of the converters; check_numpy_array is the identity on the numbers; a context object is not re-entered while active; frequency converters are not tied; the access-context and argument-flow lemmas are syntactic-scope facts about the listed functions only.",
+   design="7/C05", technique="Coq proof (field arithmetic over Q; induction over context programs) + static tie (GenC05.v): conversion tables, converters (scalar and array path), get/set/unset_current_units, the three context classes (through a proved `with` skeleton), delegations, units-managed properties, convert, the units switch of build, the units current at every managed access of the axis-conversion functions and the flow of the energy arguments of five setters are translated from the current source and proved equal to Model/C05.v (to_int/to_cur/_elt, set_e/set_l/unset_e, enter_e/exit_e, exec (PWithE/PWithL ...), convert) + in-Coq differential correspondence + transparency monitor comparing the stored state of 69 library calls made inside and outside units contexts"),
  "C04": dict(
    text="Proved in Coq over an abstract group of basis changes acting on abstract data (so for every class and every size): "
         "EVERY program of object creation, reads, writes, protect/unprotect, apply-with-copy, arbitrarily nested eigenbasis_of "
@@ -288,8 +288,8 @@ CHECKS = {
         "with the run's own fft/ifft calls recorded and replayed as the model's oracle so that shifts, Hermitian fill, cut and scale are "
         "reproduced through exact rationals (1e-12), for both model variants; for lengths 1, 2, 4 the whole model runs with its own "
         "defining sums. Not covered: the window argument; one-point complete axes (the code raises); iFT o FT on upper-half time axes "
-        "(a factor 2 in get_inverse_Fourier_transform; the property claims FT o iFT only).",
-   design="7/C13", technique="Coq proof (list rotations, sums over an abstract ring with a root of unity, field arithmetic for the axes) + in-Coq correspondence with recorded oracle calls"),
+        "(a factor 2 in get_inverse_Fourier_transform; the property claims FT o iFT only). Static tie: trusts harness/translate_c13.py to read the ast, and assumes the stated meanings of numpy.fft.fftfreq/fftshift, Python slicing and energy_units('int'); the window product and len(data) = axis.length stay with the differential part.",
+   design="7/C13", technique="Coq proof (list rotations, sums over an abstract ring with a root of unity, field arithmetic for the axes) + static tie: the two axis-conversion methods translated whole (typed interpreter) and both DFunction transform methods matched against statement templates, the generated definitions proved equal to Model/C13 through skeleton lemmas (Proofs/C13gen.v) + in-Coq correspondence with recorded oracle calls (units-context dimension included)"),
  "C11": dict(
    text="Proved in Coq: for every Nt >= 3 position p of one_transition_spectrum holds dd dt (half-sided trapezoid Fourier sum of a(t) + "
         "c.c.) at integer frequency p + Nt//2 - Nt + 2 of hfft's own 2Nt-2 point grid (index arithmetic of hfft, fftshift, flipud, cut); "
@@ -305,8 +305,8 @@ CHECKS = {
         "model fed the recorded hfft outputs, eigenvectors and dipoles reproduces .data within 1e-10 and the returned axis is compared "
         "with the pinned and repaired axis models (1e-12); independent Fourier integrals on both grids. from_dynamics and the mock "
         "calculator are not modelled; with a supplied tensor only purity, symmetry and axis clauses are checked. The calculator also sets "
-        "system._has_system_bath_coupling (an attribute, not H, D or R; noted).",
-   design="7/C11", technique="Coq proof (index model over an abstract ring with a root of unity, field-level grid comparison) + in-Coq correspondence with recorded hfft outputs"),
+        "system._has_system_bath_coupling (an attribute, not H, D or R; noted). Static tie: describes the code as it is (known finding returned_axis_displaced included); the time-domain responses (exp(-g-iwt), _c2g), the omega prefactor and the rate-matrix branch are outside it; the translator plus the stated meanings of flipud/fftshift/slices/.data += are trusted.",
+   design="7/C11", technique="Coq proof (index model over an abstract ring with a root of unity, field-level grid comparison; dipole-strength and exciton-correlation-function symmetries) + static tie of the faithful (Pinned-axis) model: the transform tails, the sum over transitions, _excitonic_coft, bootstrap's axis and the axis re-created by the three calculators are translated on every run and proved equal to Model/C11 (Proofs/C11gen.v, translate_c11.py + translate_c13.py) + in-Coq correspondence with recorded hfft outputs"),
  "C14": dict(
    text="Proved in Coq (closed) over Q with numpy.exp as an oracle assumed only to satisfy ex 0 = 1, 0 <= ex x and monotonicity (it MAY "
         "underflow to 0): with the shift by the minimum the partition sum is >= 1 and _thermal_population returns populations in [0,1] "
